@@ -193,7 +193,7 @@ def _with_y(strategy):
 
 def run(ctx):
     q = ctx.tier == "quick"
-    run_hypothesis(ctx, _with_y(bc.leaf_cases()), oracle, 110 if q else 2000, "C01-leaves")
-    run_hypothesis(ctx, _with_y(bc.tree_cases(3, 8) if q else bc.tree_cases(4, 14)), oracle, 30 if q else 450,
+    run_hypothesis(ctx, _with_y(bc.leaf_cases()), oracle, 110 if q else 1200, "C01-leaves")
+    run_hypothesis(ctx, _with_y(bc.tree_cases(3, 8) if q else bc.tree_cases(4, 14)), oracle, 30 if q else 250,
                    "C01-trees")
-    run_hypothesis(ctx, _with_y(bc.flow_cases()), oracle, 7 if q else 90, "C01-flows")
+    run_hypothesis(ctx, _with_y(bc.flow_cases()), oracle, 7 if q else 50, "C01-flows")
